@@ -237,7 +237,8 @@ fn gen_matrix(r: &mut Prng, m: usize, class: u64) -> MatrixSpec {
                         mn = mn.min(v);
                         row[j] = v.to_bits();
                     }
-                    row[4] = if wild_inf { f32::NEG_INFINITY.to_bits() } else { (mn - (r.range(0, 16) as f32) / 8.0).to_bits() };
+                    // wildcard: -inf, or any finite value from below the row minimum to above the row maximum
+                    row[4] = if wild_inf { f32::NEG_INFINITY.to_bits() } else { (mn + (r.range(0, 200) as f32 - 16.0) / 8.0).to_bits() };
                     row
                 })
                 .collect();
@@ -255,7 +256,7 @@ fn gen_matrix(r: &mut Prng, m: usize, class: u64) -> MatrixSpec {
                         mn = mn.min(v);
                         row[j] = v.to_bits();
                     }
-                    row[4] = if wild_inf { f32::NEG_INFINITY.to_bits() } else { (mn - r.unit_f64() as f32).to_bits() };
+                    row[4] = if wild_inf { f32::NEG_INFINITY.to_bits() } else { (mn + (r.unit_f64() * 14.0 - 1.0) as f32).to_bits() };
                     row
                 })
                 .collect();
@@ -387,16 +388,28 @@ fn gen_len(r: &mut Prng, m: usize, class: u64, block_hint: usize) -> usize {
         }
         5 => r.range(m + 1, m + 40),
         6 => 32 * r.range(200, 2000) - r.usize_below(32),
+        7 => {
+            // row counts at powers of two and one off, lengths at and around the row boundary
+            let rows = *r.pick(&[255usize, 256, 257, 511, 512, 513, 1023, 1024, 1025, 2047, 2048, 2049]);
+            let rows = if r.chance(1, 4) { rows.min(513) } else { rows.min(1025) };
+            (32 * rows + *r.pick(&[0usize, 1, 31])).saturating_sub(*r.pick(&[0usize, 1, 32]))
+        }
         _ => r.heavy(m, 3000),
     }
+}
+
+/// Sequences with more than 2^16 striped rows (beyond every 16-bit row counter), at a low rate.
+fn gen_huge_len(r: &mut Prng) -> usize {
+    32 * (65536 + *r.pick(&[0usize, 1, 2, 100, 4464])) + *r.pick(&[0usize, 1, 31]) - *r.pick(&[0usize, 1, 32])
 }
 
 pub fn gen_world(r: &mut Prng, idx: u64, prop: &str, forced: Option<(usize, usize)>) -> Sc {
     let m = match forced {
         Some((_, m)) => m,
-        None => match r.below(8) {
-            0 => 1,
-            1 => r.range(25, 40),
+        None => match r.below(40) {
+            0..=4 => 1,
+            5..=9 => r.range(25, 40),
+            10 => *r.pick(&[63usize, 64, 65, 127, 128, 129, 255, 256, 257]),
             _ => r.range(2, 20),
         },
     };
@@ -404,8 +417,10 @@ pub fn gen_world(r: &mut Prng, idx: u64, prop: &str, forced: Option<(usize, usiz
     let spare_width = if r.chance(1, 4) { m + r.range(1, 40) } else { 0 };
     let wrap = (m - 1).max(spare_width.saturating_sub(1));
     let block_hint = *r.pick(&[8usize, 16, 32, 64, 256]);
+    let huge = forced.is_none() && idx % 4001 == 4000;
     let l = match forced {
         Some((l, _)) => l,
+        None if huge => gen_huge_len(r),
         None => gen_len(r, m, idx / 5, block_hint),
     };
     let seq = gen_seq(r, l, &matrix, idx / 50);
@@ -420,10 +435,11 @@ pub fn gen_world(r: &mut Prng, idx: u64, prop: &str, forced: Option<(usize, usiz
         6 => (rows + wrap).saturating_sub(1).max(1),
         7 => rows + wrap,
         8 => 256,
-        9 => if r.chance(1, 2) { 1_000_000 } else { usize::MAX },
+        9 => *r.pick(&[1_000_000usize, usize::MAX, 65_535, 65_536, 65_537]),
         10 => block_hint,
         _ => r.range(1, rows + wrap + 2),
     };
+    let block_size = if huge && r.chance(2, 3) { *r.pick(&[65_536usize, 65_537, 1_000_000, usize::MAX, rows]) } else { block_size };
     let threshold = match (idx / 3) % 8 {
         0 => ThresholdSpec::BelowMin,
         1 => ThresholdSpec::NegInf,
@@ -1108,7 +1124,7 @@ impl Sim for ScanSim {
 
     fn assumptions(_prop: &str) -> Vec<String> {
         vec![
-            "In contract: non-wildcard matrix entries finite, wildcard column -inf or <= the row minimum, threshold not NaN, look-ahead rows >= M-1 (configure was called).".into(),
+            "In contract: non-wildcard matrix entries finite, wildcard column -inf or any finite value (below, inside or above the range of the row), threshold not NaN and not changed once iteration has started (the property is silent about that), look-ahead rows >= M-1 (configure was called).".into(),
             "Reference score = f32 left-to-right sum over the matrix values the library holds (bit-for-bit what score_position evaluates); for non-exact matrices a position within 2*M*2^-24*sum|term| of the threshold or of the maximum is don't-care (counted as tolerated).".into(),
             "The avx2 host profile needs a machine with AVX2 (present here); generic and sse2 arms are reached through the verif-hooks override.".into(),
         ]
